@@ -88,6 +88,23 @@ static lp_upolynomial_t* gen_root_poly(unsigned maxdeg) {
     long c[10] = { 0 }; c[0] = -2; c[1] = 4 * a; c[2] = -2 * a * a; c[n] += 1;
     return lp_upolynomial_construct_from_long(lp_Z, n, c);
   }
+  if (k < 27) {           /* several rational roots inside one dyadic cell of width 1/4, with different multiplicities: the roots of
+                             the different square-free factors arrive with nested / overlapping isolating intervals */
+    long base = rnd_in(-4, 4); int used[10] = { 0 }; unsigned deg = 0;
+    long one[1] = { 1 }; p = lp_upolynomial_construct_from_long(lp_Z, 0, one);
+    int nr = 2 + (int)rnd(3);
+    for (int t = 0; t < nr; ++t) {
+      int j = 1 + (int)rnd(9); if (used[j]) continue; used[j] = 1;
+      unsigned mult = 1 + rnd(2); if (deg + mult > maxdeg) break;
+      long num = 10 * base + j, den = 40, g = 1;                   /* the root base/4 + j/40 */
+      for (long d = 2; d <= 40; ++d) while (num % d == 0 && den % d == 0) { num /= d; den /= d; g *= d; }
+      long c[2] = { -num, den };
+      for (unsigned m = 0; m < mult; ++m) p = upoly_times(p, lp_upolynomial_construct_from_long(lp_Z, 1, c));
+      deg += mult;
+    }
+    if (lp_upolynomial_degree(p) > 0) return p;
+    lp_upolynomial_delete(p);
+  }
   {
     long one[1] = { chance(50) ? 1 : (chance(50) ? -1 : rnd_in(-6, 6)) }; if (one[0] == 0) one[0] = 2;
     p = lp_upolynomial_construct_from_long(lp_Z, 0, one);
